@@ -229,6 +229,8 @@ func (e *enc) event(s flows.Session, ev flows.Event) {
 		e.n(7)
 	case *events.DialEndedEvent:
 		e.n(8)
+	case *events.DialWaitEvent:
+		e.n(10)
 	default:
 		if txt, ok := failureText(ev); ok {
 			e.n(9, failToken(txt))
@@ -407,7 +409,12 @@ func (w *world) start(h *History) *CallObs {
 	case "flow_action":
 		trig = tb.FlowAction(&flows.SessionHistory{ParentUUID: "8a1a6a3c-2b1c-4f5d-9a3e-1c2d3e4f5a6b", Ancestors: 1, AncestorsSinceInput: 1}, json.RawMessage(parentRunSummary)).Build()
 	default:
-		trig = tb.Manual().Build()
+		if tf := h.Assets.flow(h.Trigger.Flow); tf != nil && tf.Type == 2 {
+			// a voice flow can only be started with a call
+			trig = tb.Manual().WithCall(assets.NewChannelReference(assets.ChannelUUID(channelUUID), "Twilio"), urns.URN("tel:+12065551212")).Build()
+		} else {
+			trig = tb.Manual().Build()
+		}
 	}
 	obs := &CallObs{Assets: h.Assets}
 	var s flows.Session
@@ -506,7 +513,16 @@ func (w *world) resume(s flows.Session, op *Op) (*CallObs, flows.Session) {
 	case "expiration":
 		res = resumes.NewRunExpiration(nil, nil)
 	case "dial":
-		res = resumes.NewDial(nil, nil, flows.NewDial(flows.DialStatusAnswered, 10))
+		status := flows.DialStatusAnswered
+		switch op.Text {
+		case "busy":
+			status = flows.DialStatusBusy
+		case "no_answer":
+			status = flows.DialStatusNoAnswer
+		case "failed":
+			status = flows.DialStatusFailed
+		}
+		res = resumes.NewDial(nil, nil, flows.NewDial(status, 10))
 	}
 	var sp flows.Sprint
 	t0 := time.Now()
